@@ -442,7 +442,10 @@ func compileRegexExpression(expression *RegexExpression) (*compiledRegexExpressi
 	switch expression.ExpressionType {
 	case RegexExpressionCondition:
 		if expression.Condition == nil {
-			return nil, nil
+			// A condition node without a condition is constant true (see
+			// matchesRegexExpression). It must stay in the tree: dropping it
+			// would turn OR(x, true) into OR(x).
+			return &compiledRegexExpression{expressionType: RegexExpressionCondition}, nil
 		}
 		compiledPattern, err := regexp.Compile(expression.Condition.Pattern)
 		if err != nil {
